@@ -16,6 +16,9 @@ CLAIMED = {
  'C18': dict(technique='Coq proof over definitions translated from the source (qtrans) + bit-exact vm_compute correspondence over memory layouts',
              text='Theorems for all I,J,K and all modes over an arbitrary entry type: the generated unfold has the mode-n fibres as columns, fold(unfold T) = T and unfold(fold M) = M pointwise, shapes, entrywise maps commute with unfolding, squared Frobenius norm preserved; rgb->quaternion->rgb (no clipping) and split/stack are inverse. Metrics and noise level are checked on the implementation (not theorems).',
              note='Trusted: Coq kernel, qtrans (row-major reshape / axis permutation semantics, cross-checked on C, Fortran, transposed and strided layouts). Known findings: clip window of quat_to_rgb, underflow in psnr/relative_error.', ref='7/C18'),
+ 'C17': dict(technique='Coq proof over the _pad_psf definition translated from the source + periodic-convolution theorems; exact-oracle correspondence for the FFT and matrix paths',
+             text='Theorems for all image and kernel sizes (kernel no larger than the image) over any commutative ring: the generated padding places tap (u,v) at offset (u-kH/2, v-kW/2) wrapped periodically and writes nothing else, preserves the total mass; periodic convolution maps an impulse to the re-centred kernel, multiplies masses, is linear. The FFT blur/restoration, the normal equations, both matrix builders, linearity and channel independence are compared with the exact operator on every size pair.',
+             note='Trusted: Coq kernel, qtrans (np.roll / slice-write semantics, cross-checked by execution); the FFT and pinv are oracles compared numerically (1e-9 / 1e-8), not proved.', ref='7/C17'),
 }
 checks = []
 for pid, c in sorted(CLAIMED.items()):
